@@ -968,21 +968,52 @@ class Summaries:
 
         @reg('<std::option::Option<T> as std::cmp::PartialEq>::eq')
         def _(ctx):
-            a = deref(ctx, ctx.args[0])
-            b = deref(ctx, ctx.args[1])
+            pa, pb = ctx.args[0], ctx.args[1]
+            a = deref(ctx, pa)
+            b = deref(ctx, pb)
+
+            def payload_eq(x, y):
+                if isinstance(x, NumV) and isinstance(y, NumV):
+                    r = eng.prove_cmp(ctx.st, 'eq', x, y)
+                    if r is not None:
+                        return BoolV(r)
+                    return BoolV(None, ('cmp', 'eq', x, y))
+                if isinstance(x, BoolV) and isinstance(y, BoolV):
+                    if x.val is not None and y.val is not None:
+                        return BoolV(x.val == y.val)
+                    if y.val is not None:
+                        return x if y.val else BoolV(None, ('not', x))
+                    if x.val is not None:
+                        return y if x.val else BoolV(None, ('not', y))
+                return None
             if isinstance(a, EnumV) and isinstance(b, EnumV):
                 if len(a.tags) == 1 and len(b.tags) == 1:
                     if a.tags != b.tags:
                         return BoolV(False)
                     if a.tags == {0}:
                         return BoolV(True)
-                    x = a.payload[1].fields.get('0')
-                    y = b.payload[1].fields.get('0')
-                    if isinstance(x, NumV) and isinstance(y, NumV):
-                        r = eng.prove_cmp(ctx.st, 'eq', x, y)
-                        if r is not None:
-                            return BoolV(r)
-                        return BoolV(None, ('cmp', 'eq', x, y))
+                    r = payload_eq(a.payload[1].fields.get('0'), b.payload[1].fields.get('0'))
+                    if r is not None:
+                        return r
+                else:
+                    # one side a known variant, the other a place whose tag is still open:
+                    # eq == (tag test) and (payload test); a branch on it narrows the place
+                    for (pm, m, k) in ((pa, a, b), (pb, b, a)):
+                        if len(k.tags) == 1 and len(m.tags) > 1 and isinstance(pm, RefV):
+                            kt = next(iter(k.tags))
+                            if kt not in m.tags:
+                                return BoolV(False)
+                            t = BoolV(None, ('tag', pm.path, kt))
+                            if kt == 0:
+                                return t
+                            pl = m.payload.get(1)
+                            r = payload_eq(pl.fields.get('0') if pl is not None else None, k.payload[1].fields.get('0'))
+                            if r is not None:
+                                if r.val is True:
+                                    return t
+                                if r.val is False:
+                                    return BoolV(False)
+                                return BoolV(None, ('and', t, r))
             return BoolV(None, ('fact', ('opteq', next(_c))))
 
         # ---------- numeric helpers -------------------------------------
